@@ -6,7 +6,7 @@ TRUSTED = ["python ast (stdlib)", "RxPY: Subject delivers synchronously in subsc
 
 
 def rules_for(prop):
-    from .rules import mx, st, grp, lv, scan, er, ms
+    from .rules import mx, st, grp, lv, scan, er, ms, tm
     from functools import partial as P
 
     def named(f, **kw):
@@ -20,6 +20,7 @@ def rules_for(prop):
                 named(lv.rule_lv, only=("group_by_mux._group_by.on_subscribe",))],
         "C05": [grp.rule_roll, st.rule_st2_3_4, st.rule_st6,
                 named(lv.rule_lv, only=("roll_mux._roll.subscribe", "roll_mux._roll_count.subscribe"))],
+        "C08": [tm.rule_tm123, tm.rule_tm4, st.rule_st5, mx.rule_mx7],
         "C09": scan.RULES,
         "C13": er.RULES + [mx.rule_wc2],
         "C14": ms.RULES,
